@@ -53,7 +53,13 @@ impl Distribution for Uniform {
 
 impl Distribution1D for Uniform {
     fn update(&mut self, params: &[f64]) {
-        self.set_lower(params[0]).set_upper(params[1]);
+        // validate the new pair as a whole: checking the new lower bound against the *old* upper
+        // bound would reject valid targets lying entirely above the current interval
+        if params[0] > params[1] {
+            panic!("Upper must be larger than lower.")
+        }
+        self.lower = params[0];
+        self.upper = params[1];
     }
 }
 
